@@ -24,6 +24,28 @@ for suite in root.iter('testsuite'):
         full = (cls + '::' + name)
         res[full] = ok
 missing = [t for t in base['stable_pass'] if not res.get(t, False)]
+# The integration tests of this repository bind fixed UDP ports that are shared between test
+# binaries (9999, 8888, 7777, 6666), so with 8 parallel test processes a test can fail with
+# AddrInUse depending on scheduling. A stable test that did not pass is therefore re-run alone
+# (no parallel tests), up to twice, before it is reported as not passing.
+import subprocess
+still = []
+for t in missing:
+    binary, _, name = t.partition('::') if not t.startswith('uflow::') or t.count('::') < 2 else (None, None, None)
+    parts = t.split('::')
+    # nextest ids: "uflow::<test path>" for the lib, "uflow::<bin>::<test>" for integration tests
+    ok = False
+    for attempt in range(2):
+        if len(parts) == 3 and parts[1] in ('disconnect', 'timeouts', 'ideal_transfer', 'reliable_transfer'):
+            cmd = ['cargo', 'test', '--offline', '--test', parts[1], parts[2], '--', '--exact']
+        else:
+            cmd = ['cargo', 'test', '--offline', '--lib', '::'.join(parts[1:]), '--', '--exact']
+        r = subprocess.run(cmd, cwd='/repo', capture_output=True, text=True)
+        if r.returncode == 0 and '1 passed' in r.stdout: ok = True; break
+    print(f"  re-run alone: {t}: {'passed' if ok else 'FAILED'}")
+    if ok: res[t] = True
+    else: still.append(t)
+missing = still
 print(f"baseline(off): {sum(res.values())} passed of {len(res)} run; stable {len(base['stable_pass'])}, not passing: {len(missing)}")
 for m in missing: print("  NOT PASSING:", m)
 sys.exit(1 if missing else 0)
